@@ -134,6 +134,10 @@ def encode_to_dict(obj: Any, refs: Dict[int, Any]):
             value = {"__type": "set", "value": [encode_to_dict(v, refs) for v in obj]}
         elif isinstance(obj, re.Pattern):
             value = {"__type": "regex", "value": obj.pattern, "flags": obj.flags}
+        elif isinstance(obj, bytes):
+            value = {"__type": "bytes", "value": obj.hex()}
+        elif isinstance(obj, complex):
+            value = {"__type": "complex", "value": [obj.real, obj.imag]}
         else:
             raise Exception(f"Unhandled type in encode_to_dict: {type(obj)}")
 
@@ -217,6 +221,12 @@ def decode_from_dict(d: Any, refs: Dict[int, Any]):
 
             elif d_type == "regex":
                 value = re.compile(d["value"], d["flags"])
+
+            elif d_type == "bytes":
+                value = bytes.fromhex(d["value"])
+
+            elif d_type == "complex":
+                value = complex(*d["value"])
 
             else:
                 raise Exception(f"Unknown d_type: {d_type}")
